@@ -107,7 +107,7 @@ func runPECase(c sigCase, input []byte, o peOpts) {
 	okc := jint(r, "checksum_field") == jint(r, "checksum_ref")
 	oracle(c.Fmt, "python: PE CheckSum", okc)
 	if !okc {
-		cls := pickClass(c.Class, "field-", "overlay-")
+		cls := pickClass(c.Class, "field-", "e_lfanew-", "overlay-", "input-checksum")
 		violation("pe:checksum-differs:"+cls, fmt.Sprintf("%s: CheckSum field %#x at offset %d, reference %#x (file size %d)", c, jint(r, "checksum_field"), jint(r, "checksum_off"), jint(r, "checksum_ref"), jint(r, "size")), c.replay(nil))
 	}
 	// --- certificate table
